@@ -1,10 +1,11 @@
 import BlobfinderModel.Properties.C04
 import BlobfinderModel.Proofs.Pipeline
+import BlobfinderModel.Proofs.Transpose
 /-!
 # C14 — equivariant to translation and axis swap, invariant to intensity offset
 Exact arithmetic (ℚ); the logarithm is never evaluated: the statements are about its argument.
-Residual (oracle only): float32 rounding under cyclic shifts of the full-frame method; transposition of
-the complete evaluation (argmax tie-breaking is row-major, so it needs a unique maximum).
+Residual (oracle only): float32 rounding under cyclic shifts of the full-frame method.  Transposition is
+proved for maps with a unique maximiser (argmax tie-breaking is row-major, so ties are not mirror images).
 -/
 namespace C14
 open Model
@@ -180,6 +181,42 @@ theorem fastPeak_offset (L : ℚ → ℚ) (mask frame : ℤ → ℤ → ℚ) (fy
   apply evaluate_congr _ _ (2 * c) (2 * c) hpos hpos
   intro y x _ _ _ _
   exact corrMap_congr _ mask _ _ _ _ (by exact_mod_cast hpos) (by exact_mod_cast hpos) hlog y x
+
+/-- **Axis swap of the evaluation kernels** (any map with a unique maximiser, any size): centre and
+refined position swap their coordinates, height and elevation are unchanged. -/
+theorem evaluate_transposed (corr : ℤ → ℤ → ℚ) (n m : ℕ) (hn : 0 < n) (hm : 0 < m)
+    (huniq : ∀ y x y' x' : ℤ, IsMaxAt corr n m y x → IsMaxAt corr n m y' x' → y = y' ∧ x = x') :
+    (evaluate (fun y x => corr x y) m n).cy = (evaluate corr n m).cx ∧
+    (evaluate (fun y x => corr x y) m n).cx = (evaluate corr n m).cy ∧
+    (evaluate (fun y x => corr x y) m n).height = (evaluate corr n m).height ∧
+    (evaluate (fun y x => corr x y) m n).ry = (evaluate corr n m).rx ∧
+    (evaluate (fun y x => corr x y) m n).rx = (evaluate corr n m).ry ∧
+    (evaluate (fun y x => corr x y) m n).elev2 = (evaluate corr n m).elev2 :=
+  evaluate_transpose corr n m hn hm huniq
+
+/-- **Axis swap of the crop-based method, end to end**: transposed frame, transposed mask, swapped
+peak ⇒ swapped centre and refined position, same height and elevation (unique maximiser of the
+window's correlation map). -/
+theorem fastPeak_transposed (L : ℚ → ℚ) (mask frame : ℤ → ℤ → ℚ) (fy fx : ℤ) (c : ℕ) (hc : 0 < c) (p : ℤ × ℤ)
+    (huniq : ∀ y x y' x' : ℤ, IsMaxAt (fastCorr L mask frame fy fx c p) (2 * c : ℕ) (2 * c : ℕ) y x →
+      IsMaxAt (fastCorr L mask frame fy fx c p) (2 * c : ℕ) (2 * c : ℕ) y' x' → y = y' ∧ x = x') :
+    let e := fastPeak L mask frame fy fx c p
+    let e' := fastPeak L (fun a b => mask b a) (fun a b => frame b a) fx fy c (p.2, p.1)
+    e'.cy = e.cx ∧ e'.cx = e.cy ∧ e'.height = e.height ∧ e'.ry = e.rx ∧ e'.rx = e.ry ∧ e'.elev2 = e.elev2 :=
+  fastPeak_transpose L mask frame fy fx c hc p huniq
+
+/-- the correlation map itself commutes with the axis swap for every size, both shift kinds -/
+theorem corrMap_transposed (kind : String) (mask data : ℤ → ℤ → ℚ) (H W : ℕ) (y x : ℤ) :
+    corrMap kind (fun a b => mask b a) (fun a b => data b a) W H x y = corrMap kind mask data H W y x :=
+  corrMap_transpose kind mask data H W y x
+
+/-- the uniqueness hypothesis is necessary: a 2×2 map with two equal maxima on the anti-diagonal is
+evaluated to centre (0, 1), its transpose also to (0, 1) — not to the swapped (1, 0) -/
+theorem transpose_tie_counterexample :
+    let corr : ℤ → ℤ → ℚ := fun y x => if (y = 0 ∧ x = 1) ∨ (y = 1 ∧ x = 0) then 1 else 0
+    ((evaluate corr 2 2).cy, (evaluate corr 2 2).cx) = (0, 1) ∧
+    ((evaluate (fun y x => corr x y) 2 2).cy, (evaluate (fun y x => corr x y) 2 2).cx) = (0, 1) := by
+  decide +kernel
 
 /-- non-vacuity of `crop_translate`: 6×6 frame, crop size 1 -/
 example : cropPixel (α := ℤ) (fun yy xx => (fun a b => 10 * a + b) (yy - 1) (xx - 2)) 6 6 1 (2 + 1) (1 + 2) 0 1
